@@ -169,7 +169,11 @@ var (
 	gate    func(ev string, g int) // optional scheduler gate (may block)
 )
 
+// progress counts completed calls and hook events: the watchdog tells "slow" (a loaded machine, the race detector) from "stuck".
+var progress int64
+
 func hook(ev string, who interface{}, a, b int) {
+	atomic.AddInt64(&progress, 1)
 	g := gid()
 	if gate != nil && ev == "rs.wait" {
 		gate(ev, g)
@@ -221,6 +225,8 @@ func main() {
 	out := flag.String("out", "", "events ndjson")
 	ng := flag.Int("g", 4, "goroutines")
 	rounds := flag.Int("rounds", 1, "passes over the job list per goroutine")
+	stall := flag.Int("stall", 150, "seconds without any completed call or hook event after which the run counts as stuck")
+	maxrun := flag.Int("maxrun", 2400, "seconds after which a run that still makes progress is cut off (reported as timeout, not as deadlock)")
 	seed := flag.Int64("seed", 1, "seed for the per-goroutine order")
 	flag.Parse()
 	utils.VerifHook = hook
@@ -236,12 +242,33 @@ func main() {
 		fmt.Fprintln(os.Stderr, err)
 		os.Exit(2)
 	}
-	watchdog := time.AfterFunc(240*time.Second, func() {
-		emit(w, map[string]interface{}{"op": "deadlock", "hist": 0})
-		w.Flush()
-		os.Exit(3)
-	})
-	defer watchdog.Stop()
+	// watchdog: no call completed and no hook fired for *stall* seconds -> the run is stuck (deadlock / hang of the code under test);
+	// a run that keeps making progress is only cut off after *maxrun* seconds and then reported as a timeout (no verdict), never as a deadlock
+	stopWatch := make(chan struct{})
+	defer close(stopWatch)
+	go func() {
+		last, lastChange, t0 := int64(-1), time.Now(), time.Now()
+		for {
+			select {
+			case <-stopWatch:
+				return
+			case <-time.After(2 * time.Second):
+			}
+			if p := atomic.LoadInt64(&progress); p != last {
+				last, lastChange = p, time.Now()
+			}
+			stuck := time.Since(lastChange) > time.Duration(*stall)*time.Second
+			if stuck || time.Since(t0) > time.Duration(*maxrun)*time.Second {
+				op := "timeout"
+				if stuck {
+					op = "deadlock"
+				}
+				emit(w, map[string]interface{}{"op": op, "hist": 0, "progress": last})
+				w.Flush()
+				os.Exit(3)
+			}
+		}
+	}()
 	if *mode == "schedule" {
 		runSchedule(raw, w)
 		return
@@ -311,6 +338,7 @@ func worker(g int, jobs []Job, rounds int, seed int64, start chan struct{}, wg *
 	for r := 0; r < rounds; r++ {
 		for _, i := range rng.Perm(len(jobs)) {
 			out = append(out, res{g, k, jobs[i].Key, observe(&jobs[i])})
+			atomic.AddInt64(&progress, 1)
 			k++
 		}
 	}
@@ -353,12 +381,6 @@ func runSchedule(raw []byte, w *bufio.Writer) {
 			cond.Broadcast()
 		}
 	}
-	go func() { // watchdog: a replay that makes no progress is a deadlock of the code under test (or of the imposed order), reported as such
-		time.Sleep(60 * time.Second)
-		emit(w, map[string]interface{}{"op": "deadlock", "hist": 0})
-		w.Flush()
-		os.Exit(3)
-	}()
 	type rsres struct {
 		C, N int
 		Out  []int
